@@ -18,6 +18,10 @@ func init() {
 }
 
 func runC13(p *Prog, r *Report) {
+	if want("C13.21") {
+		// (shared with C08) damaged blocks are reported, not skipped, when tables are rewritten
+		ruleCompactionInputsStrict(p, r, "C13.21")
+	}
 	if want("C13.20") {
 		// entry headers are uvarints; a raw length byte only where that length < 0x80
 		ruleEntryHeaderEncoding(p, r, "C13.20")
